@@ -154,3 +154,44 @@ def compose(cx, parts):
         r['instance'] = r['rule'] + ':' + r['instance']
         r['rule'] = cx.rule
         cx.records.append(r)
+
+
+_IMPLIES = {'Lt': {'Lt', 'Le', 'Ne'}, 'Le': {'Le'}, 'Gt': {'Gt', 'Ge', 'Ne'}, 'Ge': {'Ge'}, 'Eq': {'Eq', 'Le', 'Ge'}, 'Ne': {'Ne'}}
+_SWAP = {'Lt': 'Gt', 'Gt': 'Lt', 'Le': 'Ge', 'Ge': 'Le', 'Eq': 'Eq', 'Ne': 'Ne'}
+
+
+def boundary_checks(fn):
+    """Assertions of fn whose two operands are also compared by a guard every path to the assertion has
+    passed: [(block, (op, a, b), [guard ops in the assertion's orientation], implied?)].  `if a > b { return }
+    ... assert!(a < b)` is two beliefs about the same pair that disagree at a == b: one of them is wrong."""
+    out = []
+    for b in sorted(fn.live_blocks()):
+        be = fn.bool_edges(b)
+        if be is None:
+            continue
+        for want, pan in ((True, be[0]), (False, be[1])):
+            x, hops = pan, 0
+            while fn.term(x)['k'] == 'goto' and hops < 3:
+                x, hops = fn.term(x)['t'], hops + 1
+            t = fn.term(x)
+            if not (t['k'] == 'call' and t['t'] < 0 and 'panicking' in (t.get('calleep') or '')):
+                continue
+            r = as_relation((fn.switch_expr(b), want))
+            if not r:
+                continue
+            op, a, c = r
+            sa, sc = show(a.strip()), show(c.strip())
+            same = []
+            for e, v, ed in fn.facts_at(b):
+                f = as_relation((e, v))
+                if not f:
+                    continue
+                fo, fa, fc = f
+                pair = (show(fa.strip()), show(fc.strip()))
+                if pair == (sa, sc):
+                    same.append(fo)
+                elif pair == (sc, sa):
+                    same.append(_SWAP[fo])
+            if same:
+                out.append((b, (op, a, c), same, any(op in _IMPLIES[f] for f in same)))
+    return out
